@@ -1,5 +1,6 @@
 pub mod bits;
 pub mod codec;
+pub mod cpipe;
 pub mod merkle;
 pub mod sha;
 pub mod tyval;
